@@ -43,6 +43,7 @@ VPath(e) ==
      ELSE IF Len(sites) = 0 \/ sites[1] # s \/ sites[Len(sites)] # t THEN "path-endpoints"
      ELSE IF ~ValidWalk(E, mv, sites) THEN (IF ValidWalk(E, Moves26, sites) THEN "path-uses-diagonal-move-when-disabled-or-missing" ELSE "path-not-a-walk-on-the-periodic-grid")
      ELSE IF e.energy # [i \in DOMAIN sites |-> At(E, sites[i])] THEN "reported-energies"
+     ELSE IF "secondary" \in DOMAIN e /\ ~e.secondary THEN "total-energy-or-end-sites-disagree-with-the-path"
      ELSE IF e.kind = "peak"
           THEN (IF PeakOf(E, sites) = MinPeak(E, mv, s, t) THEN "ok"
                 ELSE IF WalkCost("sum", E, sites, 1) = best THEN "known:D7" ELSE "path-not-minimal")
@@ -64,6 +65,7 @@ VPerc(e) ==
      ELSE IF ~ValidWalk(E2, Moves26, sites) THEN "path-not-a-walk-on-the-periodic-grid"
      ELSE IF 2 * NodeSum(E2, sites, 1) # bestD THEN "percolating-path-not-cheapest-over-peaks"
      ELSE IF e.energy # [i \in DOMAIN sites |-> At(E2, sites[i])] THEN "reported-energies"
+     ELSE IF "secondary" \in DOMAIN e /\ ~e.secondary THEN "total-energy-or-end-sites-disagree-with-the-path"
      ELSE IF e.wrapped # [i \in DOMAIN sites |-> WrapVox(sites[i], d)] THEN "wrapped-sites-not-inside-grid"
      ELSE IF ~e.fracInCell THEN "fractional-sites-not-inside-cell"
      ELSE "ok"
